@@ -388,3 +388,77 @@ Proof.
   replace (X + 1 - 11) with (1 + (X - 11)) by lia. rewrite bpow_plus.
   change (bpow radix10 1) with 10%R. change (10 ^ 12) with (10 * 10 ^ 11). rewrite mult_IZR. ring.
 Qed.
+
+(* ---- the bounds of the OnDouble rungs are binary64 numbers ---------------------------------- *)
+(* [b64_lt_correct] makes the model's test [to_double n * den <? num] the C++ `n < X` on doubles only
+   if the bound X = num/den (the exact value of the folded constant, regenerated) IS a finite double.
+   [threshold_exact] checks that for one rung: num, den > 0, den = 2^k, and num = m * 2^j exactly with
+   j = max 0 (log2 num - 52), m < 2^53, -1074 <= j - k <= 971, i.e. num/den = m * 2^(j-k) with a
+   53-bit significand and an exponent of the finite binary64 range.  OnInt / Else rungs: nothing to check. *)
+Definition threshold_exact (r : Gen_C17.rung_test * Gen_C17.rung_fmt) : bool :=
+  match fst r with
+  | Gen_C17.OnDouble num den =>
+      let k := Z.log2 den in
+      let j := Z.max 0 (Z.log2 num - 52) in
+      let m := num / 2 ^ j in
+      (0 <? num) && (0 <? den) && (2 ^ k =? den) && (m * 2 ^ j =? num) && (m <? 2 ^ 53) &&
+      (-1074 <=? j - k) && (j - k <=? 971)
+  | _ => true
+  end.
+
+Lemma thresholds_exact :
+  forallb threshold_exact Gen_C17.si_ladder = true /\ forallb threshold_exact Gen_C17.iec_ladder = true.
+Proof. vm_compute. split; reflexivity. Qed.
+
+(* what the boolean buys: a finite binary64 whose value is exactly num/den *)
+Theorem threshold_exact_sound num den f :
+  threshold_exact (Gen_C17.OnDouble num den, f) = true ->
+  0 < den /\ exists y : binary64, is_finite y = true /\ B2R y = (IZR num / IZR den)%R.
+Proof.
+  unfold threshold_exact. cbn [fst]. cbv zeta.
+  set (k := Z.log2 den). set (j := Z.max 0 (Z.log2 num - 52)). set (m := num / 2 ^ j).
+  intros H. repeat (apply andb_prop in H; destruct H as [H ?]).
+  apply Z.ltb_lt in H. apply Z.ltb_lt in H5. apply Z.eqb_eq in H4. apply Z.eqb_eq in H3. apply Z.ltb_lt in H2.
+  apply Z.leb_le in H1. apply Z.leb_le in H0.
+  split; [exact H5|].
+  assert (Hj : 0 <= j) by (unfold j; lia).
+  assert (Hk : 0 <= k) by (unfold k; apply Z.log2_nonneg).
+  assert (Pj : 0 < 2 ^ j) by (apply Z.pow_pos_nonneg; lia).
+  assert (Hm : 0 <= m) by (unfold m; apply Z.div_pos; lia).
+  set (e := j - k) in *.
+  pose proof (binary_normalize_correct 53 1024 p53 p53_1024 mode_NE m e false) as C.
+  cbv zeta in C. rewrite rnd64_is_spec in C.
+  assert (G : rnd64 (F2R (Float radix2 m e)) = F2R (Float radix2 m e)).
+  { apply round_generic; [apply valid_rnd_N|]. apply generic_format_FLT.
+    apply (FLT_spec radix2 (-1074) 53 _ (Float radix2 m e)); [reflexivity| |].
+    - cbn [Fnum]. rewrite Z.abs_eq by exact Hm. exact H2.
+    - cbn [Fexp]. exact H1. }
+  rewrite G in C. rewrite Rlt_bool_true in C.
+  - destruct C as [Cv [Cf _]].
+    exists (binary_normalize 53 1024 p53 p53_1024 mode_NE m e false). split; [exact Cf|].
+    rewrite Cv. unfold F2R. cbn [Fnum Fexp].
+    rewrite <- H3, <- H4, !mult_IZR, !pow2_bpow by lia.
+    unfold e, Z.sub. rewrite bpow_plus, bpow_opp.
+    pose proof (bpow_gt_0 radix2 k). pose proof (bpow_gt_0 radix2 j). field. lra.
+  - apply F2R_lt_bpow. cbn [Fnum Fexp]. rewrite Z.abs_eq by exact Hm.
+    apply Z.lt_le_trans with (1 := H2). change (Zpower radix2 (1024 - e)) with (2 ^ (1024 - e)).
+    apply Z.pow_le_mono_r; lia.
+Qed.
+
+(* hence: on every OnDouble rung of the two regenerated ladders the model's test IS `n < X` on doubles
+   (Flocq's Bltb on the double of n and a finite double X of value exactly num/den) *)
+Theorem thresholds_are_binary64 :
+  (forallb threshold_exact Gen_C17.si_ladder = true /\ forallb threshold_exact Gen_C17.iec_ladder = true) /\
+  (forall num den f, In (Gen_C17.OnDouble num den, f) (Gen_C17.si_ladder ++ Gen_C17.iec_ladder) ->
+     0 < den /\
+     exists y : binary64, is_finite y = true /\ B2R y = (IZR num / IZR den)%R /\
+       forall n, 0 <= n < 2 ^ 64 -> Bltb (b64_of_Z n) y = (to_double n * den <? num)).
+Proof.
+  split; [exact thresholds_exact|]. intros num den f Hin.
+  assert (T : threshold_exact (Gen_C17.OnDouble num den, f) = true).
+  { destruct thresholds_exact as [S I]. rewrite forallb_forall in S, I.
+    apply in_app_or in Hin. destruct Hin as [Hin|Hin]; [apply S|apply I]; exact Hin. }
+  destruct (threshold_exact_sound num den f T) as (Hd & y & Fy & Ry).
+  split; [exact Hd|]. exists y. split; [exact Fy|]. split; [exact Ry|].
+  intros n Hn. exact (b64_lt_correct n y num den Hn Hd Fy Ry).
+Qed.
